@@ -873,13 +873,14 @@ def mentions_fp(t) -> bool:
     hit = _FP_MENTION.get(key)
     if hit is not None:
         return hit[1]
-    seen, stack, found = set(), [t], False
+    seen, stack, found, alive = set(), [t], False, []
     while stack and not found:
         u = stack.pop()
         i = u.get_id()
         if i in seen:
             continue
         seen.add(i)
+        alive.append(u)  # ids are only unique among live terms
         if z3.is_fp(u) or z3.is_fprm(u):
             found = True
             break
